@@ -109,6 +109,7 @@ class Check:
             "traces_validated_against_impl": self.traces,
             "evaluations": self.evaluations,
             "distinct_nontrivial": len(self.distinct) + self.distinct_extra,
+            "rule": self.extra.pop("rule", "cases are behaviours / states enumerated or simulated by TLC from the property's specification and replayed into the implementation (or implementation traces validated by TLC); a case is distinct by its full spec state / history, non-trivial if it took at least one action beyond the initial state"),
             "samples": self.samples or ["(no sample recorded)"],
             "exhaustive": self.extra.pop("exhaustive", False),
             "tlc_runs": self.tlc_runs,
